@@ -419,13 +419,19 @@ def check_filter(chk, main_tu, c_tu, it_c):
     chk.require(len(sp) == 1, 'wasmCWriteImplementationFile has %d sprintf calls' % len(sp))
     args = astdb.call_args(sp[0])
     fmt = astdb.string_value(args[1])
-    m = re.fullmatch(r'%c%0(\d+)(l|ll)?u\.c', fmt or '')
+    m = re.fullmatch(r'%c%0(\d+|\*)(l|ll)?u\.c', fmt or '')
     site = 'wasmCWriteImplementationFile:format'
-    if not chk.expect(m is not None, 'R20.4', 'writer-format', 'implementation files are named with format %r, expected %%c%%010u.c' % fmt, site,
-                      astdb.loc_str(sp[0])):
-        return
-    width = int(m.group(1))
-    at = c_tu.desugar(astdb.qtype(astdb.strip(args[3])))
+    if m is None:
+        raise AnalysisBroken('implementation files are named with format %r - unrecognised naming scheme' % fmt)
+    vi = 3
+    if m.group(1) == '*':
+        width = astdb.const_int(args[3], c_tu)
+        if width is None:
+            raise AnalysisBroken('field width argument of %r is not a constant' % fmt)
+        vi = 4
+    else:
+        width = int(m.group(1))
+    at = c_tu.desugar(astdb.qtype(astdb.strip(args[vi])))
     ti = astdb.int_type_info(at)
     maxdigits = len(str((1 << ti[0]) - 1)) if ti else 99
     chk.expect(width == 10 and maxdigits <= 10 and not m.group(2), 'R20.4', 'writer-format-shape',
